@@ -13,7 +13,7 @@ CONFIG = dict(
              "entries). Tie: real deterministic, bip44, xpub and collection wallets; every case first reads back the reference "
              "(first M addresses generated in ONE batch by a fresh wallet with the same seed; lastSeed after N keys for every N; for "
              "xpub also the seed wallet's external chain) and then runs random generate/scan(with activity sets)/Serialize+Load/"
-             "Lock+Unlock sequences, including derivation on both bip44 chains WHILE LOCKED and through wallet.GuardUpdate, and scans whose transaction finder fails (no effect on entries or lastSeed); the driver predicts the entry list, returned addresses and lastSeed of every step from the "
+             "Lock+Unlock sequences, including derivation on both bip44 chains WHILE LOCKED and through wallet.GuardUpdate, scans whose transaction finder fails (no effect on entries or lastSeed), and two-account bip44 wallets (per account and chain the entries are map child [0..N); a wallet-wide scan never shrinks another account: cscan_keeps); the driver predicts the entry list, returned addresses and lastSeed of every step from the "
              "reference via the model; Entry.Verify / VerifyPublic and equality of every entry (public and secret key) with the unencrypted reference wallet is checked after every unlock and at the end.",
         note="The iterator/child functions are parameters: that cipher.MustGenerateDeterministicKeyPairsSeed really is an unfold of one "
              "step function (n then m from the returned seed = n+m) is what the correspondence checks; reload and lock/unlock are "
